@@ -64,6 +64,49 @@ struct Hist {
     restarts: u32,
     n_files: u32,
     hist_no: u64,
+    /// the history started from a zone FILE through `try_from_config` (`beginf`): no model side
+    no_model: bool,
+}
+
+/// zone files for the first start (`try_from_config`: load the file, create the journal, dump) — with what a zone file may
+/// hold and an UPDATE may not: glue of an out-of-zone name server, a stray out-of-zone record, DS at a delegation, wildcards
+const ZONE_FILES: [&str; 2] = [
+    "@ 3600 IN SOA ns1.example.com. admin.example.com. 100 3600 600 86400 300\n\
+     @ 3600 IN NS ns1.example.com.\n\
+     @ 3600 IN NS ns.example.net.\n\
+     ns.example.net. 300 IN A 198.51.100.53\n\
+     other.org. 300 IN TXT \"stray\"\n\
+     a 300 IN A 10.0.0.1\n\
+     a 300 IN TXT \"t1\"\n\
+     alias 300 IN CNAME a\n\
+     sub 300 IN NS ns.sub\n\
+     sub 300 IN DS 12345 8 2 00112233445566778899aabbccddeeff00112233445566778899aabbccddeeff\n\
+     ns.sub 300 IN A 10.0.0.9\n\
+     *.w 300 IN TXT \"wild\"\n\
+     mx 300 IN MX 10 a\n",
+    "@ 3600 IN SOA ns1.example.com. admin.example.com. 4294967295 3600 600 86400 300\n\
+     @ 3600 IN NS ns1.example.com.\n\
+     @ 300 IN MX 10 mail\n\
+     @ 300 IN TXT \"apex\"\n\
+     @ 300 IN A 10.0.0.7\n\
+     @ 300 IN AAAA 2001:db8::7\n\
+     @ 300 IN CAA 0 issue \"letsencrypt.org\"\n\
+     mail 300 IN A 10.0.0.8\n\
+     * 300 IN A 10.0.0.9\n\
+     _sip._tcp 300 IN SRV 1 2 5060 mail\n",
+];
+
+/// the TSIG key of `c12::signer()` as configuration: a key file next to the journal (so that a restarted server still
+/// authorises the signed updates)
+fn tsig_keys(dir: &Path) -> Vec<hickory_server::store::sqlite::TsigKeyConfig> {
+    let key_file = dir.join("update-key.tsig");
+    let _ = std::fs::write(&key_file, b"0123456789abcdef0123456789abcdef");
+    vec![hickory_server::store::sqlite::TsigKeyConfig {
+        name: "update-key.".to_string(),
+        key_file,
+        algorithm: hickory_proto::rr::rdata::tsig::TsigAlgorithm::HmacSha256,
+        fudge: 300,
+    }]
 }
 
 fn count_rows(path: &Path) -> usize {
@@ -92,7 +135,7 @@ fn recover(rt: &tokio::runtime::Runtime, origin: &Name, journal: &Path) -> Resul
         zone_path: journal.with_extension("no-such-zone-file"),
         journal_path: journal.to_path_buf(),
         allow_update: true,
-        tsig_keys: vec![],
+        tsig_keys: tsig_keys(journal.parent().unwrap_or(Path::new("."))),
     };
     match catch(|| rt.block_on(SqliteZoneHandler::try_from_config(origin.clone(), ZoneType::Primary, AxfrPolicy::Deny, false, None, &cfg, None))) {
         Ok(Ok(h)) => {
@@ -225,6 +268,12 @@ impl Hist {
         // the third token only makes the case text unique per history (the model ignores it)
         let line = format!("{} {k} h{}", if restart { "restart" } else { "cut" }, self.hist_no);
         self.n_files += 1;
+        if restart {
+            // a real restart: the process is gone — its connection is closed (an open transaction is rolled back)
+            // before the journal file is opened afresh
+            self.h = None;
+            self.twin = None;
+        }
         let dst = if restart { self.dir.join(format!("restart-{}.sqlite", self.n_files)) } else { self.dir.join("cut.sqlite") };
         if !cut_copy(&self.live, &dst, k) {
             rec.stat("skipped.cut-copy-failed");
@@ -241,6 +290,7 @@ impl Hist {
             Ok(s) => format!("rec ok {} {} {}", s.serial, count_rows(&dst), s.dump),
             Err(_) => "rec err".to_string(),
         };
+        let out = if self.no_model { "~".to_string() } else { out };
         let idx = rec.case(line, out);
         rec.stat(if restart { "op.restart" } else { "op.cut" });
         self.judge_cut(k, &got, rec, idx);
@@ -261,12 +311,15 @@ impl Hist {
                         self.boundaries = vec![Boundary { rows: rows_after.len(), snap: s.clone(), n_msgs, acked: true }];
                     }
                 }
-                // a twin that never restarted: initial zone + the surviving messages
-                let twin = c12::new_handler(&self.origin, &self.initial);
-                for (p, u) in &self.msgs {
-                    let _ = c12::run_update(&self.rt, &twin, p, u);
+                // a twin that never restarted: initial zone + the surviving messages (a zone-file history has no record list
+                // to build one from: there the boundary comparison alone judges)
+                if !self.no_model {
+                    let twin = c12::new_handler(&self.origin, &self.initial);
+                    for (p, u) in &self.msgs {
+                        let _ = c12::run_update(&self.rt, &twin, p, u);
+                    }
+                    self.twin = Some(twin);
                 }
-                self.twin = Some(twin);
                 self.h = Some(h);
                 self.live = dst;
                 self.restarts += 1;
@@ -314,22 +367,111 @@ fn exec(line: &str, hist: &mut Hist, rec: &mut Recorder) {
             hist.restarts = 0;
             hist.n_files = 0;
             hist.hist_no += 1;
+            hist.no_model = false;
         }
         ["end"] => {
             rec.case(line.to_string(), "end".into());
             hist.h = None;
             hist.twin = None;
         }
-        ["upd", rest @ ..] => {
+        ["beginf", which] => {
+            // first start from a zone file: the real `try_from_config` loads it, creates the journal and dumps the zone
+            hist.h = None;
+            hist.twin = None;
+            let _ = std::fs::remove_dir_all(&hist.dir);
+            std::fs::create_dir_all(&hist.dir).expect("journal dir");
+            let origin = Name::from_ascii("example.com.").unwrap();
+            let zone_path = hist.dir.join("example.com.zone");
+            hist.live = hist.dir.join("live.sqlite");
+            let text = ZONE_FILES[which.parse::<usize>().unwrap_or(0) % ZONE_FILES.len()];
+            let start = |zone: &Path, journal: &Path| {
+                let cfg = SqliteConfig { zone_path: zone.to_path_buf(), journal_path: journal.to_path_buf(), allow_update: true, tsig_keys: tsig_keys(journal.parent().unwrap_or(Path::new("."))) };
+                catch(|| hist.rt.block_on(SqliteZoneHandler::try_from_config(origin.clone(), ZoneType::Primary, AxfrPolicy::Deny, false, None, &cfg, None)))
+            };
+            rec.impl_only += 1;
+            let idx = rec.case(line.to_string(), "~".into());
+            rec.stat("op.beginf");
+            // neither a zone file nor a journal: an error, not a panic and not an empty zone
+            match start(&zone_path, &hist.live) {
+                Ok(Err(_)) => {}
+                Ok(Ok(_)) => rec.fail(idx, "try_from_config produced a zone from neither a zone file nor a journal".to_string(), ""),
+                Err(p) => rec.fail(idx, format!("try_from_config panicked without zone file and journal: {p}"), ""),
+            }
+            let _ = std::fs::remove_file(&hist.live);
+            // a zone file that does not parse: an error, and no journal left behind that the next start would take for the zone
+            std::fs::write(&zone_path, "@ 3600 IN SOA ns1.example.com. admin.example.com. 1 2 3\n@ IN A not-an-address\n").expect("zone file");
+            match start(&zone_path, &hist.live) {
+                Ok(Err(_)) => {
+                    if hist.live.exists() && count_rows(&hist.live) > 0 {
+                        rec.fail(idx, "a start that failed on the zone file left journal rows behind".to_string(), "");
+                    }
+                }
+                Ok(Ok(_)) => rec.fail(idx, "try_from_config accepted a zone file that does not parse".to_string(), ""),
+                Err(p) => rec.fail(idx, format!("try_from_config panicked on a bad zone file: {p}"), ""),
+            }
+            let _ = std::fs::remove_file(&hist.live);
+            std::fs::write(&zone_path, text.replace("     ", "")).expect("zone file");
+            let h = match start(&zone_path, &hist.live) {
+                Ok(Ok(h)) => h,
+                Ok(Err(e)) => {
+                    rec.fail(idx, format!("the first start from the zone file failed: {e}"), "");
+                    return;
+                }
+                Err(p) => {
+                    rec.fail(idx, format!("the first start from the zone file panicked: {p}"), "");
+                    return;
+                }
+            };
+            if let Some(j) = hist.rt.block_on(h.journal()).as_ref() {
+                fast_pragmas(j);
+            }
+            let s = c12::snapshot(&hist.rt, &h);
+            if !s.rrs.iter().any(|r| r.rtype == c12::T_SOA) {
+                rec.fail(idx, "the zone loaded from the file has no SOA".to_string(), "");
+            }
+            let rows = count_rows(&hist.live);
+            hist.initial = vec![];
+            hist.origin = origin;
+            hist.msgs.clear();
+            hist.boundaries = vec![Boundary { rows, snap: s, n_msgs: 0, acked: true }];
+            hist.h = Some(h);
+            hist.restarts = 0;
+            hist.n_files = 0;
+            hist.hist_no += 1;
+            hist.no_model = true;
+            // the zone file is gone from now on: every later start has only the journal
+            let _ = std::fs::remove_file(&zone_path);
+        }
+        ["upd", rest @ ..] | ["updf", rest @ ..] => {
             let (Some(h), Some((p, u))) = (hist.h.as_ref(), c12::split_pu(rest)) else {
                 rec.stat("skipped.unparsable-case");
                 return;
             };
-            let (stage, res) = c12::run_update(&hist.rt, h, &p, &u);
+            // `updf`: the same message through the real `ZoneHandler::update` (TSIG-signed on the wire)
+            let full = t[0] == "updf";
+            let (stage, res) = if full {
+                match c12::run_update_full(&hist.rt, h, &hist.origin, &p, &u) {
+                    Some(r) => (if r.starts_with("ok") { "apply" } else { "full" }, r),
+                    None => {
+                        rec.stat("skipped.unencodable-message");
+                        return;
+                    }
+                }
+            } else {
+                c12::run_update(&hist.rt, h, &p, &u)
+            };
             let after = c12::snapshot(&hist.rt, h);
             let rows = count_rows(&hist.live);
-            let idx = rec.case(line.to_string(), format!("{stage} {res} {} {} {}", after.serial, rows, after.dump));
-            rec.stat("op.upd");
+            let out = if hist.no_model {
+                rec.impl_only += 1;
+                "~".to_string()
+            } else if full {
+                format!("full {res} {} {} {}", after.serial, rows, after.dump)
+            } else {
+                format!("{stage} {res} {} {} {}", after.serial, rows, after.dump)
+            };
+            let idx = rec.case(line.to_string(), out);
+            rec.stat(if full { "op.updf" } else { "op.upd" });
             rec.stat(&format!("upd.{stage}.{res}"));
             let prev_rows = hist.boundaries.last().map(|b| b.rows).unwrap_or(0);
             rec.stat(&format!("upd.rows-appended.{}", rows.saturating_sub(prev_rows).min(6)));
@@ -337,10 +479,11 @@ fn exec(line: &str, hist: &mut Hist, rec: &mut Recorder) {
                 rec.stat("upd.after-restart");
                 rec.nontrivial(idx);
                 // behaves as if no restart had happened
-                if let Some(tw) = hist.twin.as_ref() {
+                // (the twin has no journal: a message with an unwritable row is not for it)
+                if let Some(tw) = hist.twin.as_ref().filter(|_| u.iter().all(c12::row_fits)) {
                     let (ts, tr) = c12::run_update(&hist.rt, tw, &p, &u);
                     let tsnap = c12::snapshot(&hist.rt, tw);
-                    if ts != stage || tr != res {
+                    if (ts != stage && !full) || tr != res {
                         rec.fail(idx, format!("after recovery the update answered {stage}/{res}; without a restart it answers {ts}/{tr}"), "");
                     } else if !same_state(&tsnap, &after) {
                         rec.fail(idx, format!("after recovery the update left a different zone than without a restart (serial {} vs {})", after.serial, tsnap.serial), "");
@@ -351,15 +494,25 @@ fn exec(line: &str, hist: &mut Hist, rec: &mut Recorder) {
                 rec.fail(idx, "update panicked".to_string(), "");
             }
             let acked = stage == "apply" && res.starts_with("ok");
+            // an RR the journal's row encoder cannot take (> 65 535 octets; only the Rust API can hand one in)
+            let unfit = u.iter().any(|r| !c12::row_fits(r));
+            if unfit {
+                rec.stat("upd.with-unwritable-row");
+            }
+            if res == "ok1" && rows == prev_rows {
+                rec.fail(idx, "the update was acknowledged and changed the zone, but a new connection to the journal sees no new row".to_string(), "");
+            }
             if !acked && rows != prev_rows {
                 // a refused update must leave no trace: these rows would be replayed by the next start
                 rec.fail(idx, format!("the update was refused ({stage}/{res}) but left {} row(s) in the journal", rows.saturating_sub(prev_rows)), "");
             }
-            if stage == "apply" && !res.starts_with("ok") && res != "panic" {
+            if stage == "apply" && !res.starts_with("ok") && res != "panic" && !unfit {
                 // the rows of this message are in the journal already (write-ahead): replay will meet the same error
                 rec.fail(idx, format!("update_records answered {res} after pre_scan had accepted the update section; its rows are already journalled"), "");
             }
-            hist.msgs.push((p, u));
+            if !(unfit && !acked) {
+                hist.msgs.push((p, u));
+            }
             let n_msgs = hist.msgs.len();
             hist.boundaries.push(Boundary { rows, snap: after, n_msgs, acked });
         }
@@ -403,12 +556,25 @@ fn gen_msg(rng: &mut Rng) -> String {
             m = format!("upd P{}", &m[u..]);
         }
     }
+    // one in four through the real `ZoneHandler::update` (signed wire message)
+    if rng.chance(1, 4) {
+        m = m.replacen("upd ", "updf ", 1);
+    }
     m
 }
 
-/// every fourth history starts one or two bumps before the serial wraps
+/// every fourth history starts one or two bumps before the serial wraps; every fifth zone also holds a random choice of
+/// the records of `every_type_zone` / `out_of_zone_zone`
 fn gen_begin(rng: &mut Rng) -> String {
-    let b = c12::gen_begin(rng, "beginj");
+    let mut b = c12::gen_begin(rng, "beginj");
+    if rng.chance(1, 5) {
+        let pool: Vec<String> = every_type_zone().into_iter().chain(out_of_zone_zone()).filter(|t| !t.contains(",6,1,") && !t.contains(",5,1,")).collect();
+        for _ in 0..rng.range(1, 8) {
+            b.push(' ');
+            let t: &String = rng.pick(&pool[..]);
+            b.push_str(t);
+        }
+    }
     if rng.chance(1, 4) {
         if let (Some(i), Some(j)) = (b.find(",s"), b.find(".0 ")) {
             let serial = *rng.pick(&[4294967295u32, 4294967294, 4294967293]);
@@ -466,6 +632,97 @@ fn directed_large() -> Vec<Vec<String>> {
     out
 }
 
+fn tok(name: &str, t: u16, c: u16, ttl: u32, rd: &str) -> String {
+    format!("{},{t},{c},{ttl},{rd}", name_tok(&Name::from_ascii(name).unwrap()))
+}
+
+const NS1: &str = "x036e7331076578616d706c6503636f6d00";
+
+/// records a zone file / the API may hold besides the usual ones: every record type (DNSSEC types included) at a host,
+/// at the apex and at a wildcard, DS at a delegation, names below the delegation
+fn every_type_zone() -> Vec<String> {
+    let mut v = vec![tok("example.com.", 6, 1, 3600, "s100.0"), tok("example.com.", 2, 1, 3600, NS1)];
+    v.extend(c12::usable_types("a.example.com."));
+    v.extend(c12::usable_types("example.com."));
+    v.extend(c12::usable_types("*.w.example.com.").into_iter().take(6));
+    v.push(tok("sub.example.com.", 2, 1, 300, "x026e7303737562076578616d706c6503636f6d00"));
+    v.extend(c12::usable_types("sub.example.com.").into_iter().filter(|t| t.contains(",43,") || t.contains(",47,")));
+    v.push(tok("ns.sub.example.com.", 1, 1, 300, "x0a000009"));
+    v.push(tok("deep.x.sub.example.com.", 16, 1, 300, "x027478"));
+    v
+}
+
+/// what the zone loader accepts and `pre_scan` would refuse in an UPDATE: out-of-zone owners (glue of an out-of-zone name
+/// server, stray records, the parent), wildcards, names at / below a delegation
+fn out_of_zone_zone() -> Vec<String> {
+    vec![
+        tok("example.com.", 6, 1, 3600, "s100.0"),
+        tok("example.com.", 2, 1, 3600, "x026e73076578616d706c65036e657400"), // @ NS ns.example.net.
+        tok("ns.example.net.", 1, 1, 300, "xc6336435"),                      // its glue
+        tok("example.net.", 15, 1, 300, "x000a046d61696c076578616d706c65036e657400"),
+        tok("other.org.", 16, 1, 300, "x027478"),
+        tok("com.", 2, 1, 300, "x01610c67746c642d73657276657273036e657400"),
+        tok("a.example.com.", 1, 1, 300, "x0a000001"),
+        tok("*.example.com.", 1, 1, 300, "x0a000007"),
+        tok("sub.example.com.", 2, 1, 300, "x026e7303737562076578616d706c6503636f6d00"),
+        tok("*.sub.example.com.", 16, 1, 300, "x027478"),
+        tok("ns.sub.example.com.", 1, 1, 300, "x0a000009"),
+        tok("EXAMPLE.ORG.", 28, 1, 300, "x20010db8000000000000000000000005"),
+    ]
+}
+
+/// Directed histories (both tiers): zones with every record type / with out-of-zone and delegated owners survive
+/// start → update → stop → start; a row that cannot be written (first RR of an update) followed by acknowledged updates.
+fn directed_zones() -> Vec<Vec<String>> {
+    let origin = name_tok(&Name::from_ascii("example.com.").unwrap());
+    let small = |l: &str, i: u8| tok(&format!("{l}.example.com."), 1, 1, 300, &format!("x0a0000{i:02x}"));
+    let mut out = vec![];
+    for which in 0..ZONE_FILES.len() {
+        out.push(vec![
+            format!("beginf {which}"),
+            format!("upd P U {} {}", small("b", 2), tok("a.example.com.", 16, 255, 0, "-")),
+            format!("updf P U {}", small("c", 3)),
+            "cutall".into(),
+            "restartb 0".into(),
+            format!("upd P U {} {}", small("d", 4), tok("sub.example.com.", 255, 255, 0, "-")),
+            "cutall".into(),
+            "restartb 0".into(),
+            "end".into(),
+        ]);
+    }
+    for zone in [every_type_zone(), out_of_zone_zone()] {
+        out.push(vec![
+            format!("beginj {origin} {}", zone.join(" ")),
+            format!("upd P U {} {}", small("b", 2), tok("a.example.com.", 43, 255, 0, "-")),
+            format!("upd P U {}", tok("a.example.com.", 16, 254, 0, "x027478")),
+            "cutall".into(),
+            "restartb 0".into(),
+            format!("upd P U {} {}", small("c", 3), tok("sub.example.com.", 255, 255, 0, "-")),
+            "cutall".into(),
+            "restartb 0".into(),
+            "end".into(),
+        ]);
+    }
+    // a failing journal row (an RR of 65 535 octets of RDATA, first of its update: SERVFAIL, no trace), then business as usual
+    let huge = tok("b.example.com.", c12::T_TXT, 1, 300, &c12::large_rdata_tok(c12::T_TXT, 65535));
+    let base = vec![tok("example.com.", 6, 1, 3600, "s100.0"), tok("example.com.", 2, 1, 3600, NS1), tok("a.example.com.", 1, 1, 300, "x0a000001")];
+    out.push(vec![
+        format!("beginj {origin} {}", base.join(" ")),
+        format!("upd P U {}", small("b", 2)),
+        format!("upd P U {huge} {}", small("c", 3)),
+        format!("upd P U {}", small("d", 4)),
+        format!("upd P U {} {}", small("e", 5), tok("b.example.com.", 1, 254, 0, "x0a000002")),
+        "cutall".into(),
+        "restartb 0".into(),
+        format!("upd P U {huge}"),
+        format!("upd P U {}", small("f", 6)),
+        "cutall".into(),
+        "restartb 0".into(),
+        "end".into(),
+    ]);
+    out
+}
+
 fn gen_history(rng: &mut Rng) -> Vec<String> {
     let mut v = vec![gen_begin(rng)];
     for _ in 0..rng.range(1, 6) {
@@ -485,6 +742,8 @@ fn gen_history(rng: &mut Rng) -> Vec<String> {
             v.push("cutall".into());
         }
     }
+    // … and with a real restart (connection closed, file opened afresh), whatever came before
+    v.push("restartb 0".into());
     v.push("end".into());
     v
 }
@@ -504,6 +763,7 @@ pub fn run(o: &Opts, rec: &mut Recorder) {
         restarts: 0,
         n_files: 0,
         hist_no: 0,
+        no_model: false,
     };
     for l in &o.pre_lines {
         exec(l, &mut hist, rec);
@@ -511,7 +771,7 @@ pub fn run(o: &Opts, rec: &mut Recorder) {
     rec.corpus_cases = rec.cases.len();
     c12::GIANTS.store(o.thorough(), std::sync::atomic::Ordering::Relaxed);
     if !o.replay_only {
-        for h in directed_large() {
+        for h in directed_zones().into_iter().chain(directed_large()) {
             for l in h {
                 exec(&l, &mut hist, rec);
             }
